@@ -1,7 +1,7 @@
 import corpus
 
-PLAN_QUICK = [("ctx", ["v1", "v0", "v1n", "plain"]), ("core", ["v1", "v2", "v0", "v1n", "plain"])]
-PLAN_THOROUGH = [("ctx", ["v1", "v0", "v2", "v1n", "v2n", "plain", "plainoff", "lazy1"]), ("core", ["v1", "v2", "v0", "v1n", "v2n", "plain", "plainoff", "lazy1", "gasan1"])]
+PLAN_QUICK = [("ctxf", ["v1", "v0", "plain"]), ("ctx", ["v1", "v0", "v1n", "plain"]), ("core", ["v1", "v2", "v0", "v1n", "plain"])]
+PLAN_THOROUGH = [('ctxf', ['v1', 'plain']), ('ctx', ['v1', 'v0', 'v1n', 'plain', 'lazy1']), ('core', ['v1', 'v2', 'v0', 'v1n', 'plain', 'plainoff', 'lazy1', 'gasan1'])]
 
 
 def units(tier, seed):
